@@ -9,6 +9,7 @@ with each error kind, for every k".
 -/
 import FontVerif.Model.PatchRound
 import FontVerif.Lemmas.Ift
+import FontVerif.Lemmas.IftGlyph
 set_option linter.unusedVariables false
 namespace FontVerif.C18
 open FontVerif FontVerif.Ift
@@ -199,5 +200,132 @@ theorem round_keeps_keys (font : Font) (inv noninv : List PatchInfo) (st : Statu
       · exact hset _ _
     · exact hnon
   · exact hnon
+
+/-! ## glyph keyed patches (after decoding and parsing: `applyGlyphPatches`)
+
+Vocabulary (Lemmas/IftSplice.lean, IftDedup.lean, IftGlyph.lean):
+  `glyfAndLoca font`        the font's glyf bytes + loca offsets (short offsets already ×2), as the code reads them
+  `glyphAt offsets data g`  the bytes between offsets g and g+1
+  `firstWins tag gps g`     data of the FIRST patch of the list that lists gid g for table `tag`
+  `padTo t d`               d followed by (len % divisor) zero bytes — the padding the code adds (short loca: to even)
+  `numGlyphs font`          maxp.numGlyphs
+  `bitAt d k`               bit k of a mapping table (byte k/8, LSB first), `bitsFor iftx infos` the patches' bit indices
+-/
+
+/-- **glyph_keyed_splice_spec.**  If `apply_glyph_keyed_patches` succeeds and some patch names `glyf`:
+the base font had a readable glyf/loca, the new font's glyf/loca read back with the same offset
+width, `numGlyphs + 1` offsets, first offset 0, last offset = glyf length, offsets ascending; every
+gid listed by any patch is below `numGlyphs`; and for EVERY gid the new glyph bytes are the padded
+data of the FIRST patch listing it, or — if no patch lists it — the old bytes unchanged. -/
+theorem glyph_keyed_splice_spec (infos : List PatchInfo) (gps : List GlyphPatches) (font out : Font)
+    (hu : UniqueTags font) (h : applyGlyphPatches infos gps font = .ok out)
+    (hglyf : ∃ gp ∈ gps, TAG_glyf ∈ gp.tables) :
+    ∃ a a', glyfAndLoca font = some a ∧ glyfAndLoca out = some a' ∧
+      a'.offsetType = a.offsetType ∧
+      a'.offsets.length = numGlyphs font + 1 ∧
+      a'.offsets.getD 0 0 = 0 ∧ a'.offsets.getD (numGlyphs font) 0 = a'.data.length ∧
+      a'.offsets.Pairwise (· ≤ ·) ∧
+      (∀ g d, firstWins TAG_glyf gps g = some d → g < numGlyphs font) ∧
+      ∀ g, g < numGlyphs font →
+        glyphAt a'.offsets a'.data g =
+          match firstWins TAG_glyf gps g with
+          | some d => padTo a.offsetType d
+          | none => glyphAt a.offsets a.data g := by
+  obtain ⟨tags, ift, iftx, hn, htags, _, _, _, _, hother, _, hin, _⟩ :=
+    applyGlyphPatches_char infos gps font out hu h
+  have hmem : TAG_glyf ∈ tags := ((tableTagList_ok gps tags htags).2 _).mpr hglyf
+  obtain ⟨a, repl, data, offs, ha, hd, hp, hg, hl⟩ := hin hmem
+  obtain ⟨hsort, _, hlk⟩ := dedup_spec TAG_glyf gps repl hd
+  have hhead := hother TAG_head (by decide) (by decide) (by decide) (by decide)
+  have hrb := glyf_splice_readback font out a repl _ data offs ha hsort hp hg hl hhead
+  obtain ⟨_, _, _, hle⟩ := patchOffsetArray_facts a repl _ hsort _ data offs hp
+  have hlen : (chunks a a.offsetType repl (numGlyphs font - 1)).length = numGlyphs font := by
+    rw [chunks_length]; omega
+  refine ⟨a, _, ha, hrb, rfl, ?_, ?_, ?_, ?_, ?_, ?_⟩
+  · simp only [newOffsets_length, hlen]
+  · exact newOffsets_first _
+  · have := newOffsets_last (chunks a a.offsetType repl (numGlyphs font - 1))
+    rw [hlen] at this; exact this
+  · exact newOffsets_pairwise _
+  · intro g d hfw
+    rw [← hlk g] at hfw
+    have := hle _ (lookup_some_mem repl g d hfw)
+    simp only at this; omega
+  · intro g hg'
+    simp only
+    rw [newOffsets_glyphAt _ g (by rw [hlen]; exact hg'), chunks_getElem]
+    unfold chunkFor
+    rw [hlk g]
+    cases firstWins TAG_glyf gps g <;> rfl
+
+/-- non-vacuity: a 2-glyph short-loca font; two patches that DISAGREE on gid 1 — the first one wins,
+its odd-length data is padded to even, glyph 0 comes from the second patch, bits 170 and 3 are set -/
+example :
+    let font : Font := [(TAG_IFT, [2,0,0,0,0, 1,1,1,1,1,1,1,1,1,1,1,1,1,1,1,1, 0]), (TAG_glyf, [1,2,3,4]),
+      (TAG_head, List.replicate 54 0), (TAG_loca, [0,0, 0,1, 0,2]), (TAG_maxp, [0,0,0x50,0, 0,2])]
+    let gp0 : GlyphPatches := { glyphCount := 1, tables := [TAG_glyf], gids := [1], offsets := [3, 6], raw := [9,9,9,7,7,7] }
+    let gp1 : GlyphPatches := { glyphCount := 2, tables := [TAG_glyf], gids := [0, 1], offsets := [1, 2, 5], raw := [9,5,8,8,8] }
+    let i0 : PatchInfo := { uri := "a", iftx := false, compat := [], bit := 170 }
+    let i1 : PatchInfo := { uri := "b", iftx := false, compat := [], bit := 3 }
+    applyGlyphPatches [i0, i1] [gp0, gp1] font =
+      .ok [(TAG_IFT, [10,0,0,0,0, 1,1,1,1,1,1,1,1,1,1,1,1,1,1,1,1, 4]), (TAG_glyf, [5,0,7,7,7,0]),
+        (TAG_head, List.replicate 54 0), (TAG_loca, [0,0, 0,1, 0,3]), (TAG_maxp, [0,0,0x50,0, 0,2])] := by rfl
+
+/-- **glyph_keyed_other_tables_unchanged.**  On success every table other than the two mapping tables
+and glyf/loca is the base font's, byte for byte (or still absent); glyf and loca too when no patch
+names `glyf`.  (A patch naming gvar / CFF / CFF2 never succeeds in this model — those are listed as
+not modelled.) -/
+theorem glyph_keyed_other_tables_unchanged (infos : List PatchInfo) (gps : List GlyphPatches)
+    (font out : Font) (hu : UniqueTags font) (h : applyGlyphPatches infos gps font = .ok out) :
+    (∀ t, t ≠ TAG_IFT → t ≠ TAG_IFTX → t ≠ TAG_glyf → t ≠ TAG_loca → out.get t = font.get t) ∧
+    ((¬ ∃ gp ∈ gps, TAG_glyf ∈ gp.tables) →
+      out.get TAG_glyf = font.get TAG_glyf ∧ out.get TAG_loca = font.get TAG_loca) := by
+  obtain ⟨tags, ift, iftx, hn, htags, _, _, _, _, hother, _, _, hout⟩ :=
+    applyGlyphPatches_char infos gps font out hu h
+  refine ⟨hother, ?_⟩
+  intro hno
+  exact hout (fun hm => hno (((tableTagList_ok gps tags htags).2 _).mp hm))
+
+/-- **applied_bits_exact.**  On success, in each mapping table (IFT for `iftx = false`, IFTX for
+`true`): the length is unchanged, every patch bit index is inside the table, and bit `k` is set
+afterwards iff it was set before or it is the applied bit of one of the patches of this call —
+exactly the patches' bits.  A mapping table the font lacks stays absent (and then no patch may refer
+to it).  On error there is no output at all (`Except`), so no bit is set. -/
+theorem applied_bits_exact (infos : List PatchInfo) (gps : List GlyphPatches) (font out : Font)
+    (hu : UniqueTags font) (h : applyGlyphPatches infos gps font = .ok out) (iftx : Bool) :
+    let tag := if iftx then TAG_IFTX else TAG_IFT
+    match font.get tag with
+    | none => bitsFor iftx infos = [] ∧ out.get tag = none
+    | some d => ∃ d', out.get tag = some d' ∧ d'.length = d.length ∧
+        (∀ b ∈ bitsFor iftx infos, b < 8 * d.length) ∧
+        ∀ k, bitAt d' k = (bitAt d k || (bitsFor iftx infos).contains k) := by
+  obtain ⟨tags, ift, iftx', _, _, hma, _, h1, h2, _⟩ := applyGlyphPatches_char infos gps font out hu h
+  obtain ⟨m1, m2⟩ := markApplied_spec infos _ _ _ _ hma
+  have key : ∀ (orig res : Option Bytes) (bits : List Nat), markedTable orig bits = some res →
+      match orig with
+      | none => bits = [] ∧ res = none
+      | some d => ∃ d', res = some d' ∧ d'.length = d.length ∧ (∀ b ∈ bits, b < 8 * d.length) ∧
+          ∀ k, bitAt d' k = (bitAt d k || bits.contains k) := by
+    intro orig res bits hm
+    cases orig with
+    | none =>
+      simp only [markedTable] at hm
+      split at hm
+      · rename_i hb; simp only [Option.some.injEq] at hm; exact ⟨hb, hm.symm⟩
+      · cases hm
+    | some d =>
+      simp only [markedTable, Option.map_eq_some_iff] at hm
+      obtain ⟨d', hs, hr⟩ := hm
+      obtain ⟨s1, s2, s3⟩ := setBits_spec d d' bits hs
+      exact ⟨d', hr.symm, s1, s2, s3⟩
+  cases iftx with
+  | false =>
+    simp only [Bool.false_eq_true, if_false]
+    have := key _ _ _ m1
+    rw [h1]; exact this
+  | true =>
+    simp only [if_true]
+    have := key _ _ _ m2
+    rw [h2]; exact this
 
 end FontVerif.C18
